@@ -122,8 +122,8 @@ CHECKS = {
     },
     "C01": {
         "extra_props": ["Props/C01_link.v", "Props/C01_src.v"],
-        "modules": ["p_c01", "p_c01r", "p_c01m", "p_c01p"],
-        "rule": "p_c01r / p_c01m / p_c01p: the single-layer lockstep families of C05, C13, C08 with the own-outcome verdicts of their monitors; seeded random stacks: depth 1-6 over {map, flat_map, poll, retry, throttle, timeout, cancel_on_shutdown} in any order, "
+        "modules": ["p_c01", "p_c01r", "p_c01m", "p_c01p", "p_c01x"],
+        "rule": "p_c01x: the chains of p_c13x (stages over plain and library-future inputs, callbacks on intermediate futures) with the own-outcome verdicts; p_c01r / p_c01m / p_c01p: the single-layer lockstep families of C05, C13, C08 with the own-outcome verdicts of their monitors; seeded random stacks: depth 1-6 over {map, flat_map, poll, retry, throttle, timeout, cancel_on_shutdown} in any order, "
                 "base sync or the real ThreadPoolExecutor (1-3 workers) run under the scheduler, 1-4 submissions from 1-3 client threads, "
                 "per-invocation outcome scripts for the callable, raising map/flat_map functions; x {random, sticky, PCT} schedules; each "
                 "submission's outcome (value / exception identity), invocation count and arguments compared with Stack.seq_eval evaluated by "
@@ -196,8 +196,8 @@ CHECKS = {
     },
     "C02": {
         "extra_props": ["Props/Comb_F.v", "Props/MapFut_D.v", "Props/C02_src.v", "Props/C02_machines.v", "Props/C02_ir.v"],
-        "modules": ["p_c02m", "p_c02c", "p_c02p", "p_c02x", "p_c02t", "p_c02r"],
-        "rule": "p_c02t / p_c02r: the Throttle and Retry lockstep families (cancel() of queued / in-flight futures racing with hand-over and completion) with their protocol verdicts; p_c02x: random expression trees (depth <= 3) over f_map / f_flat_map / f_proxy / f_nocancel / f_timeout / f_zip / f_or / f_and on 1-4 environment futures completed with values or exceptions in any order (monitor only: root done, outcome allowed by the tree's sequential meaning, waiters released); p_c02p: the C08 scenario family on PollExecutor plus 1-3 user done-callbacks per poll future (monitor only); library futures: the C13 scenario family (MapFuture/FlatMapFuture over environment futures; done-callbacks that may raise, "
+        "modules": ["p_c02m", "p_c02c", "p_c02p", "p_c02x", "p_c02y", "p_c02t", "p_c02r"],
+        "rule": "p_c02y: the chains of p_c13x (a done-callback that waits for another thread touching the same future; callbacks on intermediate futures; concurrent cancel); p_c02t / p_c02r: the Throttle and Retry lockstep families (cancel() of queued / in-flight futures racing with hand-over and completion) with their protocol verdicts; p_c02x: random expression trees (depth <= 3) over f_map / f_flat_map / f_proxy / f_nocancel / f_timeout / f_zip / f_or / f_and on 1-4 environment futures completed with values or exceptions in any order (monitor only: root done, outcome allowed by the tree's sequential meaning, waiters released); p_c02p: the C08 scenario family on PollExecutor plus 1-3 user done-callbacks per poll future (monitor only); library futures: the C13 scenario family (MapFuture/FlatMapFuture over environment futures; done-callbacks that may raise, "
                 "added before/after completion; 0-2 cancels) plus 0-3 threads blocked in result()/exception()/wait()/as_completed() with a "
                 "virtual timeout; combinator outputs: the C14/C15 family plus 1-3 waiters; every history replayed on Model/MapFut.v / "
                 "Model/Comb.v; monitor: outcome seen by every callback = final outcome, callbacks exactly once and only when done, cancel() "
